@@ -2,6 +2,7 @@ import J5V.Compile.FileProofs
 import J5V.Compile.ShapeProofs
 import J5V.Compile.RefProofs
 import J5V.Compile.Congr
+import J5V.Compile.AppendDeclPkg
 /-!
 # Exactness: what each generated file holds, item by item (core only)
 
@@ -314,5 +315,316 @@ theorem itemMsgs_serviceFile (c : Ctx) (ss : List Service) :
   apply flatMap_congr_mem
   intro s _
   exact (convService_msgs c s).1
+
+theorem itemEnums_serviceFile (c : Ctx) (ss : List Service) : itemEnums c (.serviceFile ss) = [] := by
+  simp only [itemEnums, convItem, convServiceFile, List.flatMap_cons, List.flatMap_map]
+  show ([] : List EnumSkel) ++ _ = _
+  simp only [List.nil_append, List.flatMap_eq_nil_iff]
+  intro s _
+  exact (convService_msgs c s).2
+
+/-- the rpc methods `visitServiceNode` builds for a service (methods whose conversion reported an
+error are left out; on a file that converts there are none) -/
+def builtMethods (c : Ctx) (s : Service) : List MethodSkel :=
+  (((s.methods.map (walkMethod c s.basePath)).filterMap (·.node)).map convMethod).filterMap (·.2)
+
+/-- the proto service of a service declaration: exactly one, when the service is named -/
+def serviceSvcs (c : Ctx) (s : Service) : List SvcSkel :=
+  match s.name with
+  | none => []
+  | some name => [{ name := name ++ b!"Service", sopt := soptSkel s.sopt, methods := builtMethods c s }]
+
+theorem convService_svcs (c : Ctx) (s : Service) : (convService c s).svcs = serviceSvcs c s := by
+  unfold convService serviceSvcs builtMethods
+  cases s.name <;> rfl
+
+theorem itemSvcs_serviceFile (c : Ctx) (ss : List Service) :
+    itemSvcs c (.serviceFile ss) = ss.flatMap (serviceSvcs c) := by
+  simp only [itemSvcs, convItem, convServiceFile, List.flatMap_cons, List.flatMap_map]
+  show ([] : List SvcSkel) ++ _ = _
+  simp only [List.nil_append]
+  apply flatMap_congr_mem
+  intro s _
+  exact convService_svcs c s
+
+/-- message objects of one topic node: one `<Name>Message` per message with a resolvable name,
+the implicit leading fields first -/
+def topicMsgs (c : Ctx) (tn : TopicNode) : List MsgSkel :=
+  tn.msgs.filterMap fun m => (topicMethodName tn m).map fun n =>
+    declMsg c [] false tn.prepend (n ++ b!"Message") m.props [] none
+
+/-- the proto service of one topic node -/
+def topicSvc (tn : TopicNode) : SvcSkel :=
+  { name := toCamel tn.name ++ b!"Topic", sopt := .topic tn.topicName tn.role tn.entityName,
+    methods := tn.msgs.filterMap fun m => (topicMethodName tn m).map fun n =>
+      { name := n, input := n ++ b!"Message", output := googleProtoEmptyType, http := none,
+        mopt := .none } }
+
+theorem flatMap_eq_filterMap {α β : Type} (l : List α) (f : α → List β) (g : α → Option β)
+    (h : ∀ a, f a = (g a).toList) : l.flatMap f = l.filterMap g := by
+  induction l with
+  | nil => rfl
+  | cons a rest ih =>
+    simp only [List.flatMap_cons, List.filterMap_cons, ih, h a]
+    cases g a <;> rfl
+
+theorem flatMap_eq_nil_of {α β : Type} (l : List α) (f : α → List β) (h : ∀ a, f a = []) :
+    l.flatMap f = [] := by
+  induction l with
+  | nil => rfl
+  | cons a rest ih => simp [List.flatMap_cons, ih, h a]
+
+theorem acceptTopic_msgs (c : Ctx) (tn : TopicNode) :
+    (acceptTopic c tn).flatMap (·.eff.msgs) = topicMsgs c tn ∧
+    (acceptTopic c tn).flatMap (·.eff.enums) = [] ∧
+    (acceptTopic c tn).flatMap (·.svcs) = [topicSvc tn] := by
+  unfold acceptTopic topicMsgs topicSvc
+  simp only [List.flatMap_append, List.flatMap_cons, List.flatMap_nil, List.append_nil,
+    List.flatMap_map]
+  have hB : (Eff.use messagingAnnotationsImport ++ Eff.imp messagingAnnotationsImport ++
+      Eff.imp googleProtoEmptyImport).msgs = [] := rfl
+  have hE : (Eff.use messagingAnnotationsImport ++ Eff.imp messagingAnnotationsImport ++
+      Eff.imp googleProtoEmptyImport).enums = [] := rfl
+  refine ⟨?_, ?_, ?_⟩
+  · rw [hB, List.append_nil]
+    apply flatMap_eq_filterMap
+    intro m
+    cases topicMethodName tn m with
+    | none => rfl
+    | some n => simp [convVirtual_msgs]
+  · rw [hE, List.append_nil]
+    apply flatMap_eq_nil_of
+    intro m
+    cases topicMethodName tn m with
+    | none => rfl
+    | some n => simp [convVirtual_enums]
+  · have : (tn.msgs.flatMap fun m => (match topicMethodName tn m with
+          | none => ({ target := .topic, hard := true } : Step)
+          | some n => { target := .topic,
+                        eff := convVirtual c (n ++ b!"Message") tn.prepend m.props }).svcs) = [] := by
+      apply flatMap_eq_nil_of
+      intro m
+      cases topicMethodName tn m <;> rfl
+    refine Eq.trans (congrArg (· ++ _) ?_) (List.nil_append _)
+    apply flatMap_eq_nil_of
+    intro m
+    cases topicMethodName tn m <;> rfl
+
+theorem flatMap_flatMap' {α β γ : Type} (l : List α) (f : α → List β) (g : β → List γ) :
+    (l.flatMap f).flatMap g = l.flatMap fun a => (f a).flatMap g := by
+  induction l with
+  | nil => rfl
+  | cons a rest ih => simp [List.flatMap_cons, List.flatMap_append, ih]
+
+theorem itemMsgs_topicFile (c : Ctx) (ts : List Topic) :
+    itemMsgs c (.topicFile ts) = ts.flatMap fun t => (topicNodes t).flatMap (topicMsgs c) := by
+  simp only [itemMsgs, convItem, convTopicFile, List.flatMap_cons, convTopic, flatMap_flatMap']
+  show ([] : List MsgSkel) ++ _ = _
+  simp only [List.nil_append]
+  apply flatMap_congr_mem
+  intro t _
+  apply flatMap_congr_mem
+  intro tn _
+  exact (acceptTopic_msgs c tn).1
+
+theorem itemEnums_topicFile (c : Ctx) (ts : List Topic) : itemEnums c (.topicFile ts) = [] := by
+  simp only [itemEnums, convItem, convTopicFile, List.flatMap_cons, convTopic, flatMap_flatMap']
+  show ([] : List EnumSkel) ++ _ = _
+  simp only [List.nil_append]
+  apply flatMap_eq_nil_of
+  intro t
+  apply flatMap_eq_nil_of
+  intro tn
+  exact (acceptTopic_msgs c tn).2.1
+
+theorem itemSvcs_topicFile (c : Ctx) (ts : List Topic) :
+    itemSvcs c (.topicFile ts) = ts.flatMap fun t => (topicNodes t).map topicSvc := by
+  simp only [itemSvcs, convItem, convTopicFile, List.flatMap_cons, convTopic, flatMap_flatMap']
+  show ([] : List SvcSkel) ++ _ = _
+  simp only [List.nil_append]
+  apply flatMap_congr_mem
+  intro t _
+  have : ∀ l : List TopicNode, (l.flatMap fun tn => (acceptTopic c tn).flatMap (·.svcs)) = l.map topicSvc := by
+    intro l
+    induction l with
+    | nil => rfl
+    | cons tn rest ih => simp [List.flatMap_cons, ih, (acceptTopic_msgs c tn).2.2]
+  exact this _
+
+/-! ## the generated files -/
+
+/-- content of the file of target `t` after visiting `items` -/
+def targetFile (c : Ctx) (f0 : FileB) (t : Target) (items : List Item) : FileB :=
+  f0.run (stepsOf t (items.flatMap (convItem c)))
+
+theorem targetFile_msgs (c : Ctx) (f0 : FileB) (t : Target) (items : List Item) :
+    (targetFile c f0 t items).msgs = f0.msgs ++ (items.filter (·.target = t)).flatMap (itemMsgs c) := by
+  simp only [targetFile, FileB.run_msgs, stepsOf_flatMap, flatMap_flatMap']
+  rfl
+
+theorem targetFile_enums (c : Ctx) (f0 : FileB) (t : Target) (items : List Item) :
+    (targetFile c f0 t items).enums = f0.enums ++ (items.filter (·.target = t)).flatMap (itemEnums c) := by
+  simp only [targetFile, FileB.run_enums, stepsOf_flatMap, flatMap_flatMap']
+  rfl
+
+theorem targetFile_svcs (c : Ctx) (f0 : FileB) (t : Target) (items : List Item) :
+    (targetFile c f0 t items).svcs = f0.svcs ++ (items.filter (·.target = t)).flatMap (itemSvcs c) := by
+  simp only [targetFile, FileB.run_svcs, stepsOf_flatMap, flatMap_flatMap']
+  rfl
+
+/-- **the files `ConvertJ5File` returns**: the main file, then at most one file per sub-package,
+each the fold of the items of its target; a sub-package file exists iff an item targets it -/
+theorem convertFile_files (res : Resolver) (path : Str) (imports : List Import) (elems : List Elem)
+    (fs : List FileSkel) (h : convertFile res path imports elems = .ok fs) :
+    ∃ im, j5Imports (packageFromFilename (path ++ b!".proto")) imports = .ok im ∧
+      let c : Ctx := { resolve := resolveTypeNoImport im res }
+      let pkg := packageFromFilename (path ++ b!".proto")
+      let name := path ++ b!".proto"
+      let items := elems.flatMap (itemsOfElem pkg)
+      ∃ subs : List (Str × FileB),
+        fs = (targetFile c { name := name, pkg := pkg } .main items).skel :: subs.map (·.2.skel) ∧
+        (subs.map (·.1)).Nodup ∧
+        (∀ kf ∈ subs, ∃ t : Target, t.sub = some kf.1 ∧ (∃ i ∈ items, i.target = t) ∧
+          kf.2 = targetFile c (subFresh name pkg kf.1) t items) ∧
+        (∀ (t : Target) (k : Str), t.sub = some k → (∃ i ∈ items, i.target = t) →
+          k ∈ subs.map (·.1)) := by
+  obtain ⟨im, hj, hrest⟩ := convertFile_ok_inv res path imports elems fs h
+  refine ⟨im, hj, ?_⟩
+  simp only [] at hrest ⊢
+  obtain ⟨_, _, hfs⟩ := hrest
+  have hinv := rootInv_run (path ++ b!".proto") (packageFromFilename (path ++ b!".proto"))
+    (fileSteps { resolve := resolveTypeNoImport im res } (packageFromFilename (path ++ b!".proto")) elems)
+  refine ⟨_, ?_, hinv.keys, ?_, ?_⟩
+  · rw [hfs, Root.files, hinv.main]
+    rfl
+  · intro kf hkf
+    obtain ⟨t, ht, hne, he⟩ := hinv.sub kf hkf
+    exact ⟨t, ht, (stepsOf_ne_nil_iff _ t _).mp hne, he⟩
+  · intro t k ht hex
+    exact hinv.all t k ht ((stepsOf_ne_nil_iff _ t _).mpr hex)
+
+theorem itemEnums_sub (c : Ctx) (i : Item) (h : i.target ≠ .main) : itemEnums c i = [] := by
+  cases i with
+  | serviceFile ss => exact itemEnums_serviceFile c ss
+  | topicFile ts => exact itemEnums_topicFile c ts
+  | object o => exact absurd rfl h
+  | oneof o => exact absurd rfl h
+  | enum e => exact absurd rfl h
+  | abort => exact absurd rfl h
+
+theorem flatMap_filter_nil {α β : Type} (l : List α) (p : α → Bool) (f : α → List β)
+    (h : ∀ a, p a = true → f a = []) : (l.filter p).flatMap f = [] := by
+  rw [List.flatMap_eq_nil_iff]
+  intro a ha
+  exact h a (List.mem_filter.mp ha).2
+
+theorem nodup_map_of_inj {α β : Type} (f : α → β) (hinj : ∀ a b, f a = f b → a = b) (l : List α)
+    (h : l.Nodup) : (l.map f).Nodup := by
+  induction l with
+  | nil => simp
+  | cons a rest ih =>
+    rw [List.nodup_cons] at h
+    rw [List.map_cons, List.nodup_cons]
+    refine ⟨?_, ih h.2⟩
+    intro hm
+    obtain ⟨b, hb, hab⟩ := List.mem_map.mp hm
+    exact h.1 (hinj _ _ hab ▸ hb)
+
+/-- **exactness of one converted file**, component by component -/
+theorem convertFile_exact (res : Resolver) (path : Str) (imports : List Import) (elems : List Elem)
+    (fs : List FileSkel) (h : convertFile res path imports elems = .ok fs) :
+    ∃ im, j5Imports (packageFromFilename (path ++ b!".proto")) imports = .ok im ∧
+      let c : Ctx := { resolve := resolveTypeNoImport im res }
+      let pkg := packageFromFilename (path ++ b!".proto")
+      let name := path ++ b!".proto"
+      let items := elems.flatMap (itemsOfElem pkg)
+      ∃ (main : FileSkel) (subs : List FileSkel), fs = main :: subs ∧
+        main.name = name ∧ main.pkg = pkg ∧ main.svcs = [] ∧
+        main.msgs = (items.filter (·.target = .main)).flatMap (itemMsgs c) ∧
+        main.enums = (items.filter (·.target = .main)).flatMap (itemEnums c) ∧
+        (subs.map (·.pkg)).Nodup ∧
+        (∀ f ∈ subs, ∃ (t : Target) (k : Str), t.sub = some k ∧ (∃ i ∈ items, i.target = t) ∧
+          f.name = subPackageFileName name k ∧ f.pkg = pkg ++ b!"." ++ k ∧
+          f.msgs = (items.filter (·.target = t)).flatMap (itemMsgs c) ∧ f.enums = [] ∧
+          f.svcs = (items.filter (·.target = t)).flatMap (itemSvcs c)) ∧
+        (∀ (t : Target) (k : Str), t.sub = some k → (∃ i ∈ items, i.target = t) →
+          ∃ f ∈ subs, f.pkg = pkg ++ b!"." ++ k) := by
+  obtain ⟨im, hj, hrest⟩ := convertFile_files res path imports elems fs h
+  refine ⟨im, hj, ?_⟩
+  simp only [] at hrest ⊢
+  obtain ⟨subs, hfs, hnodup, hsub, hall⟩ := hrest
+  refine ⟨_, _, hfs, ?_, ?_, ?_, ?_, ?_, ?_, ?_, ?_⟩
+  · simp [FileB.skel, targetFile, FileB.run_name]
+  · simp [FileB.skel, targetFile, FileB.run_pkg]
+  · simp only [FileB.skel, targetFile_svcs, List.nil_append]
+    apply flatMap_filter_nil
+    intro i hi
+    exact itemSvcs_main _ i (by simpa using hi)
+  · simp [FileB.skel, targetFile_msgs]
+  · simp [FileB.skel, targetFile_enums]
+  · -- distinct keys give distinct packages
+    rw [List.map_map]
+    have hpk : ∀ kf ∈ subs, (FileB.skel kf.2).pkg =
+        packageFromFilename (path ++ b!".proto") ++ b!"." ++ kf.1 := by
+      intro kf hkf
+      obtain ⟨t, _, _, he⟩ := hsub kf hkf
+      rw [he]; simp [FileB.skel, targetFile, FileB.run_pkg, subFresh]
+    have : subs.map ((fun x => x.pkg) ∘ fun x => x.2.skel) =
+        (subs.map (·.1)).map (fun k => packageFromFilename (path ++ b!".proto") ++ b!"." ++ k) := by
+      rw [List.map_map]
+      apply List.map_congr_left
+      intro kf hkf
+      exact hpk kf hkf
+    rw [this]
+    exact nodup_map_of_inj _ (fun a b hab => List.append_cancel_left hab) _ hnodup
+  · intro f hf
+    obtain ⟨kf, hkf, rfl⟩ := List.mem_map.mp hf
+    obtain ⟨t, ht, hex, he⟩ := hsub kf hkf
+    refine ⟨t, kf.1, ht, hex, ?_, ?_, ?_, ?_, ?_⟩
+    · rw [he]; simp [FileB.skel, targetFile, FileB.run_name, subFresh]
+    · rw [he]; simp [FileB.skel, targetFile, FileB.run_pkg, subFresh]
+    · rw [he]; simp [FileB.skel, targetFile_msgs, subFresh]
+    · rw [he]
+      simp only [FileB.skel, targetFile_enums, subFresh, List.nil_append]
+      apply flatMap_filter_nil
+      intro i hi
+      have hit : i.target = t := by simpa using hi
+      exact itemEnums_sub _ i (by rw [hit]; exact Target.sub_main ht)
+    · rw [he]; simp [FileB.skel, targetFile_svcs, subFresh]
+  · intro t k ht hex
+    obtain ⟨kf, hkf, hk⟩ := List.mem_map.mp (hall t k ht hex)
+    refine ⟨kf.2.skel, List.mem_map_of_mem hkf, ?_⟩
+    obtain ⟨t', _, _, he⟩ := hsub kf hkf
+    rw [he, ← hk]; simp [FileB.skel, targetFile, FileB.run_pkg, subFresh]
+
+/-! ## the package -/
+
+theorem insFile_perm (f : FileSkel) (l : List FileSkel) : (insFile f l).Perm (f :: l) := by
+  induction l with
+  | nil => exact List.Perm.refl _
+  | cons g rest ih =>
+    simp only [insFile]
+    split
+    · exact List.Perm.refl _
+    · exact (List.Perm.cons g ih).trans (List.Perm.swap f g rest)
+
+theorem sortFiles_perm_self (fs : List FileSkel) : (sortFiles fs).Perm fs := by
+  have : ∀ (l acc : List FileSkel),
+      (l.foldl (fun acc f => insFile f acc) acc).Perm (l ++ acc) := by
+    intro l
+    induction l with
+    | nil => intro acc; exact List.Perm.refl _
+    | cons f rest ih =>
+      intro acc
+      simp only [List.foldl_cons, List.cons_append]
+      refine (ih (insFile f acc)).trans ?_
+      refine (List.Perm.append_left rest (insFile_perm f acc)).trans ?_
+      exact List.perm_middle
+  simpa [sortFiles] using this fs []
+
+/-- names ascending (byte order), no two equal -/
+def FilesSorted : List FileSkel → Prop
+  | [] => True
+  | f :: rest => (∀ g ∈ rest, strLt g.name f.name = false) ∧ FilesSorted rest
 
 end J5V.Compile
